@@ -366,6 +366,7 @@ def setup(eng):
     eng.funcs["release_data"] = FuncVal("release_data", "contract", release_data)
     eng.funcs["finish_task"] = FuncVal("finish_task", "contract", finish_task)
     eng.mutable_records.add("State")
+    eng.always_truthy.update({"Fn", "Future", "Queue", "KeyOrder"})  # callables and plain objects are truthy
     eng.spec_types["Key"] = Key
     eng.funcs.update(LEMMA_FUNCS)
     eng.uninterp_divmod = True
